@@ -184,8 +184,8 @@ MUTANTS = [
     dict(file=NW, func="Layer.clear", old="for connection in self.connections_.values():", new="for connection in self.connections_:", contracts=["Serial", "Biclique"], name="D17 regression: clear iterates ModuleDict keys"),
     dict(file=NW, func="Biclique.__init__", old='"s ... -> ..."', new='"s ... -> () ..."', contracts=["Biclique"], name="D18 regression: combine keeps a leading singleton axis"),
     dict(file=NW, func="Biclique.wiring", old="{k: self.post_input[k](v) for k, v in inputs.items()}", new="{k: f(v) for (k, v), f in zip(inputs.items(), self.post_input.values())}", contracts=["Biclique"], name="seed C17: post transforms paired by position"),
-    dict(file=NW, func="RecurrentSerial.wiring", old="self._feedfwd_out_transform(inputs[self.__feedfwd_connection_name])\n                + self._feedback_out_transform", new="self._feedfwd_out_transform(inputs[self.__feedfwd_connection_name])\n                * self._feedback_out_transform", contracts=["RecurrentSerial"]),
+    dict(file=NW, func="RecurrentSerial.wiring", old="                + self._feedback_out_transform(inputs[self.__feedback_connection_name])", new="                * self._feedback_out_transform(inputs[self.__feedback_connection_name])", contracts=["RecurrentSerial"]),
     dict(file=NW, func="RecurrentSerial.clear", old="            self.feedback_spikes = None", new="            pass", contracts=["RecurrentSerial"]),
-    dict(file=NW, func="Serial.wiring", old="self._transform(inputs[self.__connection_name], **kwargs)", new="inputs[self.__connection_name]", contracts=["Serial"]),
+    dict(file=NW, func="Serial.wiring", old="self._transform(\n                inputs[self.__connection_name], **kwargs\n            )", new="inputs[self.__connection_name]", contracts=["Serial"]),
     dict(file=NW, func="Layer.clear", old="            for neuron in self.neurons_.values():\n                neuron.clear(**kwargs)", new="            pass", contracts=["Serial"]),
 ]
